@@ -65,7 +65,16 @@ class T(BaseEvent[int]):
     name: str = ''
 
 
-EVCLS = {c.__name__: c for c in (P, C, G, X, Y, Z, R, Q, T)}
+class E(BaseEvent):
+    """a 'batch' event that is FALSY while empty (a legitimate subclass: __len__ is its item count)"""
+    name: str = ''
+    items: list = []
+
+    def __len__(self):
+        return len(self.items)
+
+
+EVCLS = {c.__name__: c for c in (P, C, G, X, Y, Z, R, Q, T, E)}
 
 
 class Custom(Exception):
@@ -236,6 +245,13 @@ class World:
                 e = local.get(op[1]) or self.events.get(op[1])
                 if e is not None:
                     await self._await(who, e)
+            elif k == 'await_named':  # ('await_named', prefix): await the first event whose name starts with prefix, whoever dispatched it (e.g. a sibling handler)
+                e = next((x for nm, x in list(self.events.items()) if nm.startswith(op[1]) and not any(x is r for r in self.rejected)), None)
+                if e is not None:
+                    await self._await(who, e)
+            elif k == 'gather_await':  # ('gather_await', [(bus, key), ...]): dispatch the children, then await them CONCURRENTLY (asyncio.gather: one task per await, each inheriting this handler's context)
+                evs = [self._disp(who, ('disp', b, key, 'late'), local, ctxn) for b, key in op[1]]
+                await asyncio.gather(*[self._await(who, e) for e in evs if e is not None])
             elif k == 'await_all':  # ('await_all', prefix[, n]): await, in creation order, (the first n of) the accepted events whose name starts with prefix
                 todo = [e for nm, e in list(self.events.items()) if nm.startswith(op[1]) and not any(e is r for r in self.rejected)]
                 for e in todo[:op[2] if len(op) > 2 else None]:
@@ -424,7 +440,7 @@ class World:
             w.rec('enter', bus, hname, w.name_of(e), eb, who, w.events.get(w.name_of(e)) is e)
             return who
 
-        if kind in ('async', 'amethod', 'astatic'):
+        if kind in ('async', 'amethod', 'astatic', 'abusmethod'):
             async def body(e):
                 who = entered(e)
                 tok = WHO.set(who)
@@ -470,6 +486,20 @@ class World:
             inst = cls()
             self.keep.append(inst)
             fn = getattr(inst, fname)
+        elif kind in ('abusmethod', 'busmethod'):
+            # a bound method of an EventBus instance itself (a component written as `class X(EventBus)` that subscribes its own methods):
+            # __self__ is a bus, but the method is not .dispatch - it is an ordinary handler, not a forwarder
+            owner = self.buses[h.get('owner', bus)]
+            if kind == 'abusmethod':
+                async def bmeth(self_, e):
+                    return await body(e)
+            else:
+                def bmeth(self_, e):
+                    return body(e)
+            bmeth.__name__ = fname
+            bmeth.__qualname__ = 'HBus.' + fname
+            import types
+            fn = types.MethodType(bmeth, owner)
         elif kind == 'astatic':
             async def st(e):
                 return await body(e)
